@@ -231,13 +231,18 @@ func ruleDeleg(e *Env, rule, pkg string) {
 					}
 					// the formatted bytes must be written to the state
 					want := "invoke.Write(state," + ext(call, 0) + ")"
-					found := false
+					found := 0
+					var other string
 					for _, t := range lf.trace() {
 						if t == want {
-							found = true
+							found++
+						} else if strings.Contains(t, "(state,") || strings.Contains(t, ",state,") || strings.Contains(t, ",state)") || strings.Contains(t, "(state)") {
+							other = t
 						}
 					}
-					if found {
+					if found == 1 && other != "" || found > 1 {
+						e.S.Bad(rule, site, c.name, "besides the formatted bytes the fmt.State receives more output on this path ("+map[bool]string{true: other, false: "written twice"}[other != ""]+")", e.Pos(fn), "")
+					} else if found == 1 {
 						e.S.Ok(rule, site, c.name, "writes Formatter(nil, "+R+", "+c.flag+") to the fmt.State", e.Pos(fn))
 					} else {
 						e.S.Bad(rule, site, c.name, "the bytes formatted with flag "+c.flag+" are not what is written to the fmt.State", e.Pos(fn), "")
